@@ -262,7 +262,7 @@ def run(tier):
             continue
         exp_type[w] = tb.rule_type(r_exp) if tb.rule_type(r_exp) is not tb.KW else tt
         witems.append((w, r_exp, kwr))
-    maxlen = 9 if tier == 'quick' else 30
+    maxlen = 9 if tier == 'quick' else 18
     sel = [it for it in witems if len(it[0]) <= maxlen]
     if tier == 'quick':
         sel = [it for i, it in enumerate(sel) if (i + seed()) % 3 == 0]
